@@ -20,7 +20,7 @@ thread_local! {
 fn dispatch(args: &[&str]) -> Option<String> {
     match args[0] {
         "lcall" | "rangeall" | "posall" | "endcols" | "edit" | "editlc" | "editfull" | "semtok" => text::run(args),
-        "lex" | "parse" | "parsestat" | "shape" | "lossless" | "defs" | "ancestors" => syntax_cmd::run(args),
+        "lex" | "parse" | "parsestat" | "shape" | "lossless" | "defs" | "ancestors" | "swallowed" => syntax_cmd::run(args),
         "sweep" => sweep::run(args),
         "race" => race::run(args),
         "uf" => args.get(1).map(|s| ide::verif_union_find_script(s)),
